@@ -10,6 +10,8 @@ import (
 
 func scenarios(quick bool) []sigh.Scen {
 	s := []sigh.Scen{
+		// the sender itself opens a second call (usurping its first) / re-attaches while its message is still queued for the partner
+		{"sender-usurps-with-message-queued", [][]string{{"attach:a1:A:B", "wait", "send:a1:m1", "attach:a2:A:B"}, {"attach:b1:B:A"}}},
 		{"both-attach", [][]string{{"attach:a1:A:B"}, {"attach:b1:B:A"}}},
 		{"b-reattach", [][]string{{"attach:a1:A:B"}, {"attach:b1:B:A", "cancel:b1", "attach:b2:B:A"}}},
 		{"b-usurp", [][]string{{"attach:a1:A:B"}, {"attach:b1:B:A", "attach:b2:B:A"}}},
@@ -19,6 +21,7 @@ func scenarios(quick bool) []sigh.Scen {
 	}
 	if !quick {
 		s = append(s,
+			sigh.Scen{"sender-reattaches-with-message-queued", [][]string{{"attach:a1:A:B", "wait", "send:a1:m1", "cancel:a1", "attach:a2:A:B"}, {"attach:b1:B:A"}}},
 			sigh.Scen{"a-sends-b-acks-reattach", [][]string{{"attach:a1:A:B", "wait", "send:a1:m1"}, {"attach:b1:B:A", "wait", "ack:b1:last", "cancel:b1", "attach:b2:B:A"}}},
 			sigh.Scen{"both-reattach", [][]string{{"attach:a1:A:B", "cancel:a1", "attach:a2:A:B"}, {"attach:b1:B:A", "cancel:b1", "attach:b2:B:A"}}},
 			sigh.Scen{"b-reattach-twice", [][]string{{"attach:a1:A:B", "wait", "send:a1:m1"}, {"attach:b1:B:A", "cancel:b1", "attach:b2:B:A", "cancel:b2", "attach:b3:B:A"}}},
